@@ -141,7 +141,7 @@ impl Ev {
             Ev::DynArray { element } => TE::dyn_array(vars[*element]),
             Ev::FixedArray { element, length } => TE::FixedArray {
                 element: vars[*element],
-                length:  U256::from(*length),
+                length:  real_length(*length),
             },
             Ev::FixedArrayBig { element, hi, lo } => TE::FixedArray {
                 element: vars[*element],
@@ -201,6 +201,9 @@ pub struct UnifyOpts {
     pub step_budget:  u64,
     /// How the judgement set is delivered through the public state API.
     pub mode:         Delivery,
+    /// `Delivery::Staged`: how many judgements make up the first stage (the
+    /// first half if not given).
+    pub staged_at:    Option<usize>,
 }
 
 /// Equivalent ways of handing one judgement set to the unifier.
@@ -220,14 +223,20 @@ pub enum Delivery {
     /// unification runs as that stage (`TypeChecker::unify`), the way the
     /// pipeline reaches it, instead of through the free function.
     ThroughTypeChecker,
+    /// The first half of the judgements is recorded and unified, then the
+    /// second half is recorded and the state is unified again (a client that
+    /// refines a result as evidence arrives). Unification starts from the
+    /// recorded evidence every time, so the outcome has to be that of `Plain`.
+    Staged,
 }
 
 impl Delivery {
-    pub fn for_schedule(index: usize) -> Delivery {
+    pub fn for_schedule(index: usize, seed: u64) -> Delivery {
         match index {
             1 => Delivery::TwoPhase,
             2 => Delivery::OneSidedEqualities,
             3 => Delivery::ThroughTypeChecker,
+            4 if seed % 2 == 1 => Delivery::Staged,
             _ => Delivery::Plain,
         }
     }
@@ -240,7 +249,40 @@ impl Default for UnifyOpts {
             record_folds: false,
             step_budget:  3_000_000,
             mode:         Delivery::Plain,
+            staged_at:    None,
         }
+    }
+}
+
+/// The value a harness variable stands for. Most are fresh opaque values;
+/// every fourth one is another registration of the constant 1 and every
+/// seventh one another registration of `CALLER` - leaves that are not stably
+/// typed, so each registration still gets its own type variable, but whose
+/// payloads compare equal (the way repeated constants and environment reads
+/// do in real programs).
+fn leaf_for(index: usize) -> sle::vm::value::RuntimeBoxedVal {
+    use sle::vm::value::{known::KnownWord, RSVD};
+    if index % 4 == 1 {
+        RSV::new_known_value(0, KnownWord::from_le(1u32), Provenance::Synthetic, None)
+    } else if index % 7 == 3 {
+        RSV::new_synthetic(0, RSVD::Caller)
+    } else {
+        RSV::new_value(0, Provenance::Synthetic)
+    }
+}
+
+/// Harness lengths at or above this stand for array lengths beyond 64 bits
+/// (lengths are 256-bit quantities in the library).
+pub const WIDE_LENGTH_BASE: u64 = u64::MAX - 15;
+/// A fixed-array length of 2^200 + 3.
+pub const WIDE_LENGTH: u64 = WIDE_LENGTH_BASE + 3;
+
+/// The 256-bit length a harness length stands for (injective).
+pub fn real_length(length: u64) -> U256 {
+    if length >= WIDE_LENGTH_BASE {
+        (U256::ONE << 200) + U256::from(length - WIDE_LENGTH_BASE)
+    } else {
+        U256::from(length)
     }
 }
 
@@ -269,7 +311,7 @@ pub fn run_unify(ev: &EvidenceSet, sched: &Sched, opts: &UnifyOpts) -> UnifyOutc
         };
         let vars: Vec<TypeVariable> = if opts.mode == Delivery::TwoPhase {
             let half = ev.n_vars / 2;
-            let mut vars: Vec<TypeVariable> = (0..half).map(|_| state.register(RSV::new_value(0, Provenance::Synthetic))).collect();
+            let mut vars: Vec<TypeVariable> = (0..half).map(|i| state.register(leaf_for(i))).collect();
             // First use of the state object.
             let _ = state.variables();
             let _ = unification::unify(state, &wd);
@@ -280,9 +322,13 @@ pub fn run_unify(ev: &EvidenceSet, sched: &Sched, opts: &UnifyOpts) -> UnifyOutc
             }
             vars
         } else {
-            (0..ev.n_vars).map(|_| state.register(RSV::new_value(0, Provenance::Synthetic))).collect()
+            (0..ev.n_vars).map(|i| state.register(leaf_for(i))).collect()
         };
-        for (v, e) in &ev.judgements {
+        let split = opts.staged_at.unwrap_or(ev.judgements.len() / 2);
+        for (i, (v, e)) in ev.judgements.iter().enumerate() {
+            if opts.mode == Delivery::Staged && i == split {
+                let _ = unification::unify(state, &wd);
+            }
             match (opts.mode, e) {
                 (Delivery::OneSidedEqualities, Ev::Equal { other }) if other != v => {
                     state.inferences_mut(vars[*v]).insert(TE::eq(vars[*other]));
